@@ -34,7 +34,9 @@ def generate(ctx):
         w = rng.choice([6, 15, 40])
         ref = gen.rand_seq(rng, w)
         base = gen.mutate(rng, ref, p_sub=0.2, p_amb=0.05, p_gap=0.05)
-        recs = [("s%d" % i, base if rng.random() < 0.5 else gen.mutate(rng, ref, p_sub=0.2, p_amb=0.05, p_gap=0.05)) for i in range(rng.randint(1, 6))]
+        bigs = g < 2
+        nrec = [25, 29][g % 2] if bigs else rng.randint(1, 6)
+        recs = [("s%d" % i, base if rng.random() < 0.5 else gen.mutate(rng, ref, p_sub=0.2, p_amb=0.05, p_gap=0.05)) for i in range(nrec)]
         hard = rng.random() < 0.5
         refb, alnb = gen.layout(rng, [("r", ref)], "plain"), gen.layout(rng, recs, "plain")
         nseq = len(recs)
@@ -42,6 +44,8 @@ def generate(ctx):
         c = rng.randint(1, nseq)
         thrs += [c / nseq, min(1.0, c / nseq + 1e-9)]
         thrs = sorted(set(thrs))
+        if bigs:
+            thrs = sorted(set(k / nseq for k in range(0, nseq + 1)))
         shared = len({s for _, s in recs}) < len(recs)
         persq = {"id": cid, "go": {"id": cid, "op": "snps", "ref": cm.b64(refb), "aln": cm.b64(alnb), "hard": hard},
                  "coq": None, "meta": {"kind": "snps:perseq", "nontrivial": False, "group": g, "role": "perseq"}, "sample": {"cmd": "snps"}, "info": {}}
@@ -55,11 +59,17 @@ def generate(ctx):
     for g in range(n, 2 * n):
         # ---- variants
         suffix = rng.choice(["gb", "gff"])
-        genome, feats, ref_row, rows = vcommon.random_setup(rng, mod3_segments=True, nq=rng.randint(2, 6))
+        bign = (g - n) < 2           # two groups with many sequences: n = 25 and n = 29, every threshold k/n
+        nqs = [25, 29][(g - n) % 2] if bign else rng.randint(2, 6)
+        genome, feats, ref_row, rows = vcommon.random_setup(rng, mod3_segments=True, nq=nqs)
         if not feats:
             continue
         # make sequences share mutations
-        rows = [rows[0] if rng.random() < 0.4 else r for r in rows]
+        if bign:
+            protos = rows[:4]
+            rows = [rng.choice(protos) for _ in rows]
+        else:
+            rows = [rows[0] if rng.random() < 0.4 else r for r in rows]
         msa, recs = vcommon.build_msa(rng, ref_row, rows, refpos=rng.choice(["first", "middle"]))
         annob = anno.render_genbank(genome, feats, rng) if suffix == "gb" else anno.render_gff(genome, feats)
         append = rng.random() < 0.5
@@ -68,6 +78,8 @@ def generate(ctx):
         nseq = len(rows)
         c = rng.randint(1, nseq)
         thrs = sorted(set([0.0, 1.0, c / nseq, min(1.0, c / nseq + 1e-9)]))
+        if bign:
+            thrs = sorted(set(k / nseq for k in range(0, nseq + 1)))
         shared = len(set(rows)) < len(rows)
         cs.append(dict(vcommon.variants_case(cid, msa, "REF", annob, suffix, {"kind": "variants:perseq", "nontrivial": False, "group": g, "role": "perseq"},
                                              start=s, end=e, append_snps=append), wrap="CVar"))
